@@ -716,9 +716,9 @@ def evaluate(ctx: runner.Ctx, case, rep: Report):  # noqa: C901, PLR0912, PLR091
     if len({op[1] for ops in case["threads"] for op in ops}) > 1:
         labels.append("mix:different_types")
     if stub_open and not immediate and recursive:
-        ctx.count("excluded_known")  # an open-stub preemption whose known consequence is avoided by construction
+        ctx.count("deferred_only_runs_preempted_with_open_stub")
 
-    known_hit = False
+    stub_hit = False
     for r in diffs:
         kind = "race_outcome_differs" if r.phase == "race" else "later_outcome_differs"
         if r.got.exc is not None:
@@ -729,14 +729,14 @@ def evaluate(ctx: runner.Ctx, case, rep: Report):  # noqa: C901, PLR0912, PLR091
         else:
             what, slug = "returned_instead_of_raising", r.ref.struct[0]
         if r.diag == "unbound_stub:owner_in_flight":
-            known_hit = True
+            stub_hit = True
         ctx.violation(kind, (what, slug, r.diag, r.stopped), case,
                       f"thread {r.thread} {r.what}({r.tk}, datum {r.di}) {r.got.short()}; single-threaded reference: "
                       f"{r.ref.short()}; raised at {r.site}; diagnosis {r.diag}; last preemption at {r.stopped}; "
                       f"switches {[sw.as_json() for sw in rep.switches][:6]}")
     if diffs:
         labels.append("outcome:differs")
-    if known_hit:
+    if stub_hit:
         labels.append("outcome:unbound_stub_called")
     ctx.count("calls_compared", len(rep.records))
     ctx.count("yield_points_executed", rep.steps)
@@ -787,8 +787,9 @@ PROGRAMS: dict[str, tuple] = {
     "wide_load2": ("wide", [[L("Wide")], [L("Wide")]]),
     "wide_load_vs_dump": ("wide", [[L("Wide")], [D("Wide")]]),
     "wide_deferred_mix": ("wide", [[GL("Wide"), GD("Leaf")], [GD("Wide"), GL("List[Leaf]")]]),
-    # deferred calls only: loaders/dumpers are created in the race and called after it (the known unbound-stub
-    # window cannot be hit by construction; everything else -- creation errors, wrong/permanently broken loaders -- can)
+    # deferred calls only: loaders/dumpers are created in the race and called after it (a transient failure such as
+    # the unbound-stub race fixed by 89c47ab cannot mask anything here; creation errors and wrong or permanently
+    # broken loaders are still seen)
     "tree_deferred2": ("tree", [[GL("Node")], [GL("Node")]]),
     "tree_deferred3": ("tree", [[GL("Node")], [GL("List[Node]")], [GD("Node")]]),
     "tree_deferred_dump2": ("tree", [[GD("Node")], [GD("Node")]]),
